@@ -224,7 +224,7 @@ class BodyGen:
 FIXED_BODIES = ["u dot v", "u cross v", "u • v", "u × v", "2 dot x", "a dot p cross u", "5 µm + a", "5 μm", "3 µg", "a as km", "a!", "-a!", "√a^2", "(a)",
               "|a|", "⌈a⌉", "⌊a⌋", "[a, p; 1, 2]", "gg()", "gg(a)", "gg(a, p, 1)", "a - -p", "a--p", "1e3", "2.5e-3 kg", "a^p^2", "(a+p)*u", "a+p*u",
               "a % p", "a / p / u", "[1, 2, 3] cross [a, p, 1]", "[a; p] dot [1; 2]", "gg(a)(p)", "10 °C as °F", "a as °K", "1 Kib + 2 KiB",
-              "i", "e2 + e", "a dot2", "a (p)", "[a + p, (a)!; |a|, ⌈p⌉]", "1e21 + 1e-7", "[a/2, π]", "[ϕ; a × p]", "[π, 10000; 1, ϕ]", "[5 µm, 1; 1000, √a]", "v_ dot p", "t° cross a"]
+              "i", "e2 + e", "a dot2", "a (p)", "[a + p, (a)!; |a|, ⌈p⌉]", "1e21 + 1e-7", "[a/2, π]", "[ϕ; a × p]", "[π, 10000; 1, ϕ]", "[5 µm, 1; 1000, √a]", "v_ dot p", "t° cross a", "[" + "w" * 70000 + ", 1]", "[1, 2; " + "w" * 65536 + ", π]", '[[[[[[[[[1, 2; 3, 4], 2; 3, 4], 2; 3, 4], 2; 3, 4], 2; 3, 4], 2; 3, 4], 2; 3, 4], 2; 3, 4], 2; 3, 4]']
 
 
 def listing_defs(rng, quick):
